@@ -557,8 +557,13 @@ def perturb_axis(a, p):
                 # the smallest possible colour difference: one component moved by one ulp
                 key = sorted(label[j])[k % len(label[j])]
                 nm_, rgba = label[j][key]
-                x = float(rgba[k % 4])
-                y = float(np.nextafter(x, 0.0 if x > 0.5 else 1.0))
+                x = rgba[k % 4]
+                if isinstance(x, np.floating):
+                    # one ulp OF THE COMPONENT'S OWN TYPE (a float32 colour compares equal to every Python float
+                    # that rounds to it: NumPy weak-scalar promotion, not a property of the axis)
+                    y = type(x)(np.nextafter(x, type(x)(0.0 if x > 0.5 else 1.0)))
+                else:
+                    y = float(np.nextafter(float(x), 0.0 if x > 0.5 else 1.0))
                 label[j][key] = (nm_, tuple(y if i_ == k % 4 else v for i_, v in enumerate(rgba)))
             elif what == 'label-drop' and kind == 'la' and len(label[j]) > 1:
                 label[j].pop(sorted(label[j])[-1])
